@@ -45,22 +45,39 @@ func fileBytes(xs []int) []byte {
 	return []byte(sb.String())
 }
 
+// readFile renders a table file as "<line break>/<rows>": 0 = LF, 1 = CRLF, 2 = CR — the file attribute the
+// histories change with ALTER TABLE … SET LINE_BREAK
 func readFile(path string) string {
 	b, err := os.ReadFile(path)
 	if err != nil {
 		return "-"
 	}
-	lines := strings.Split(strings.TrimRight(string(b), "\n"), "\n")
-	if len(lines) < 1 || lines[0] != "v" {
-		if len(b) == 0 {
-			return "empty-file"
+	if len(b) == 0 {
+		return "empty-file"
+	}
+	txt, attr := string(b), 0
+	switch {
+	case strings.Contains(txt, "\r\n"):
+		attr = 1
+		if strings.Count(txt, "\r\n") != strings.Count(txt, "\n") || strings.Count(txt, "\r\n") != strings.Count(txt, "\r") {
+			return "garbled:" + hc.Hex(string(b))
 		}
+		txt = strings.ReplaceAll(txt, "\r\n", "\n")
+	case strings.Contains(txt, "\r"):
+		attr = 2
+		if strings.Contains(txt, "\n") {
+			return "garbled:" + hc.Hex(string(b))
+		}
+		txt = strings.ReplaceAll(txt, "\r", "\n")
+	}
+	lines := strings.Split(strings.TrimRight(txt, "\n"), "\n")
+	if lines[0] != "v" {
 		return "garbled:" + hc.Hex(string(b))
 	}
 	if len(lines) == 1 {
-		return "e"
+		return strconv.Itoa(attr) + "/e"
 	}
-	return strings.Join(lines[1:], ",")
+	return strconv.Itoa(attr) + "/" + strings.Join(lines[1:], ",")
 }
 
 type tracker struct {
@@ -164,6 +181,8 @@ func dmlSQL(target, kind string, arg int) string {
 		return fmt.Sprintf("DELETE FROM %s WHERE v = %d;", target, arg)
 	case "incr":
 		return fmt.Sprintf("UPDATE %s SET v = v + 1;", target)
+	case "setlb":
+		return fmt.Sprintf("ALTER TABLE %s SET LINE_BREAK TO %s;", target, []string{"LF", "CRLF"}[arg%2]) // CR is left out: csvq cannot read CR files back (known finding F24 of C02)
 	case "incrfail":
 		// fails at the first row holding arg — after the rows in front of it were already assigned
 		return fmt.Sprintf("UPDATE %s SET v = CASE WHEN v = %d THEN 1 / (v - v) ELSE v + 1 END;", target, arg)
@@ -340,7 +359,11 @@ func oneHistory(g *hc.Gen, o *hc.Out, scratch, bin string, h int) {
 			case c < 12:
 				pickFile(true)
 				k, a := kinds[g.Intn(len(kinds))], g.Intn(5)
-				line, sql = fmt.Sprintf("c01.dml %d %s %d", p, k, a), dmlSQL(fmt.Sprintf("%s", tn(p)), k, a)
+				if g.Intn(6) == 0 {
+					// file attributes are part of what the procedure last saw: ALTER TABLE … SET
+					k, a = "setlb", g.Intn(2)
+				}
+				line, sql = fmt.Sprintf("c01.dml %d %s %d", p, k, a), dmlSQL(tn(p), k, a)
 				if tr.exists[p] {
 					tr.locked[p] = true
 				}
@@ -403,6 +426,9 @@ func oneHistory(g *hc.Gen, o *hc.Out, scratch, bin string, h int) {
 						}
 					}
 				}
+			}
+			if strings.Contains(line, " setlb ") && got == "ok" && p < nFiles {
+				changed[p] = true // ALTER TABLE … SET rewrites the file with the new attribute
 			}
 			// bookkeeping that depends on the outcome
 			if strings.HasPrefix(line, "c01.dtemp") && got == "ok" {
